@@ -112,6 +112,10 @@ func init() {
 		quick: tierCfg{worlds: 14, batchSize: 24, checks: 120, timeoutS: 300},
 		thor:  tierCfg{worlds: 140, batchSize: 40, checks: 700, timeoutS: 3000},
 		genCfg: func(seed uint64, name string) gen.Config {
+			if seed%3 == 0 {
+				// worlds with the JSON-mapping annotations: their generated codecs run under the same interleavings
+				return gen.Config{Seed: seed, Name: name, Allow: safeAllow(gen.AnnotationFeatures...), AnnService: true, Force: []string{gen.FHeadersSvc}, MinMethods: 2}
+			}
 			return gen.Config{Seed: seed, Name: name, Allow: safeAllow(), Force: []string{gen.FMultiService, gen.FHeadersSvc, gen.FHeadersMeth}, MinServices: 2, MinMethods: 2}
 		},
 		rule: "plans = 2-10 Go-client calls over all routes of a multi-service world (shared or separate http.Client, client default headers, per-call options with distinct marker values, valid / missing / invalid required headers, scripted handler results or register-per-key store operations), released concurrently or sequentially and interleaved by the drawn schedule at I/O points and at the access probes inserted into the generated code; each call is re-executed alone in a fresh instance and compared (outcome, request line + headers on the wire, handler-visible request); accesses are checked by the vector-clock race detector; store histories by porcupine; distinct_nontrivial counts distinct (world, rpc, outcome kind, #calls, sequential?) tuples compared with a solo run plus linearizable histories by (world, #ops)",
@@ -189,7 +193,7 @@ func init() {
 		technique: "deterministic simulation: contract client with raw header sets, delayed instrumented body stream, reference header model as oracle",
 	}
 	props["C10"] = &propCfg{
-		id: "C10", level: "exploration", design: "DESIGN.md §4 C10", needTS: true, modes: []string{"errors"},
+		id: "C10", level: "exploration", design: "DESIGN.md §4 C10", needTS: true, modes: []string{"errors", "upstream-errors"},
 		quick: tierCfg{worlds: 16, batchSize: 24, checks: 250, timeoutS: 300},
 		thor:  tierCfg{worlds: 160, batchSize: 40, checks: 1500, timeoutS: 3000},
 		genCfg: func(seed uint64, name string) gen.Config {
